@@ -16,9 +16,8 @@ ALLOC_RENAMES = ["-Dmalloc=xmalloc", "-Dcalloc=xcalloc", "-Drealloc=xrealloc",
                  "-Dstrdup=xstrdup", "-Dfree=xfree"]
 VARIANTS = {
     # default: ASan+UBSan, allocator renamed to the controllable one
-    "asan": dict(cc="gcc", flags=["-O1", "-g", "-fsanitize=address,undefined",
-                                  "-fno-sanitize-recover=undefined", "-fsanitize=float-cast-overflow",
-                                  "-fno-omit-frame-pointer"], lib_defs=ALLOC_RENAMES, xalloc=True),
+    "asan": dict(cc="gcc", flags=["-O1", "-g", "-fsanitize=address,undefined", "-fsanitize=float-cast-overflow",
+                                  "-fno-sanitize-recover=all", "-fno-omit-frame-pointer"], lib_defs=ALLOC_RENAMES, xalloc=True),
     "tsan": dict(cc="gcc", flags=["-O1", "-g", "-fsanitize=thread", "-DENABLE_THREADING", "-DNDEBUG",
                                   "-pthread"], lib_defs=[], xalloc=False),
     "plain": dict(cc="gcc", flags=["-O1", "-g"], lib_defs=ALLOC_RENAMES, xalloc=True),
@@ -65,7 +64,7 @@ def ensure_cfg():
         if os.path.exists(os.path.join(tmp, f)):
             shutil.copy(os.path.join(tmp, f), d)
     shutil.rmtree(tmp, ignore_errors=True)
-    for old in sorted(glob.glob(os.path.join(BUILD, "cfg-*")), key=os.path.getmtime)[:-2]:
+    for old in sorted(glob.glob(os.path.join(BUILD, "cfg-*")), key=os.path.getmtime)[:-6]:
         shutil.rmtree(old, ignore_errors=True)
     return d
 
@@ -128,9 +127,12 @@ def _build_lib(variant, extra_defs=()):
         if r.returncode != 0:
             raise Infra("xalloc: " + r.stdout)
     open(stamp, "w").close()
-    # keep the four newest library builds
-    for old in sorted(glob.glob(os.path.join(BUILD, "lib-*")), key=os.path.getmtime)[:-4]:
-        shutil.rmtree(old, ignore_errors=True)
+    # keep the newest library builds; never delete one touched in the last hour (another
+    # check may be running from it)
+    now = time.time()
+    for old in sorted(glob.glob(os.path.join(BUILD, "lib-*")), key=os.path.getmtime)[:-6]:
+        if now - os.path.getmtime(old) > 3600:
+            shutil.rmtree(old, ignore_errors=True)
     return d, cfg
 
 
@@ -249,7 +251,7 @@ def run_impl_resilient(exe, lines, workdir, tag, env=None, chunk=None):
         obs[idx] = "CRASH " + classify_crash(err)
         crashes[idx] = err
         start = idx  # lines are 1-based: next slice starts after idx
-        if attempt > 200:
+        if attempt > 30:
             break
     return obs, crashes
 
@@ -402,6 +404,7 @@ class Check:
         m, c, crashes = self.run_pair(lines, "main")
         # 3. compare + oracle
         disagreements = []
+        self.oracle_lines = set()
         nontriv = set()
         dist = {}
         for i, (line, meta) in enumerate(cases, start=1):
@@ -413,6 +416,7 @@ class Check:
                 nontriv.add(nt)
             v = pl.oracle(line, meta, co)
             if v is not None:
+                self.oracle_lines.add(line)
                 self.report(v[0], v[1], line, known, model=mo, impl=co, direct=True)
             if not obs_match(mo, co):
                 cls = pl.classify(line, meta, mo, co)
@@ -423,7 +427,7 @@ class Check:
             if cls is not None and cls in known:
                 self.known_hits.setdefault(cls, line)
                 continue
-            if any(v[3] == line for v in self.violations):
+            if any(v[3] == line for v in self.violations) or line in self.oracle_lines:
                 continue   # already reported through the direct oracle
             unexplained.append((i, line, mo, co, cls))
         if unexplained or proof_broken:
